@@ -17,10 +17,10 @@ ASSUMPTIONS = ["under --stop-early nothing is demanded about the 'Skipped' secti
                "a SIGTERMed virtual child dies at once"]
 ESSENTIAL = ["fail_exit", "fail_signal", "fail_launch_eagain", "fail_launch_enoent", "failure_through_group",
              "two_failures", "stop_early_with_inflight", "independent_task_still_runs", "all_succeed"]
-TECHNIQUE = "property-based testing (Hypothesis) under a virtual kernel with generated failure maps; fixed-point reference model as oracle"
+TECHNIQUE = "property-based testing (Hypothesis) under a virtual kernel with generated failure maps; fixed-point reference model as oracle; one case in 16 runs real task processes (order read from one O_APPEND log, no clock)"
 LEVEL_TEXT = ("Randomised search over graphs x failure sets x schedules; the printed report, spawn log, SIGTERM log and exit "
               "status of the real CLI are compared with an independent fixed-point model. Search, not proof.")
-LEVEL_NOTE = "Trusted: vf/kernel.py; model.outcome_fixed_point; report line grammar."
+LEVEL_NOTE = "Trusted: (real-process share: vf/reallayer.py, the serialisation of O_APPEND writes) vf/kernel.py; model.outcome_fixed_point; report line grammar."
 
 
 def strategy(tier):
